@@ -90,10 +90,26 @@ class C07:
                 owner[idx + k] = p
             idx += wd
         valued = []
+        memo = {}
+
+        def from_input(v):
+            """does the Var depend on a model input (an Argument, with or without a default)?"""
+            if id(v) in memo:
+                return memo[id(v)]
+            memo[id(v)] = False
+            opn = v._op
+            r = type(opn).__name__ == "Argument" or any(x is not None and from_input(x) for x in opn.inputs)
+            memo[id(v)] = r
+            return r
+
         for i, v in enumerate(env):
             if v is None or v._value is None:
                 continue
             self.stats["valued_vars"] += 1
+            if from_input(v):
+                self.ck.impl_fail("C07/value-depends-on-model-input", "a Var that depends on a model input carries a propagated constant value",
+                                  prog, run_["backend"], run_["plan"], owner.get(i), {"env_index": i, "type": str(v.type)})
+                continue
             if v.type is None or not L.conforms(v.type, v._value):
                 self.ck.impl_fail("C07/value-not-of-var-type", f"the propagated value of a Var does not conform to its reported type {v.type}",
                                   prog, run_["backend"], run_["plan"], owner.get(i), {"env_index": i, "type": str(v.type),
